@@ -479,6 +479,9 @@ pub fn make_runner(seed: u64, part: &str, worker: usize, cases: u32, max_shrink_
         cases,
         failure_persistence: None,
         max_shrink_iters,
+        // shrinking (not the verdict) is also bounded in wall-clock time: a failing case whose re-evaluation is
+        // expensive must still be reported well before the watchdog; only the minimality of the replay suffers
+        max_shrink_time: 20_000,
         max_global_rejects: 1_000_000,
         max_local_rejects: 1_000_000,
         verbose: 0,
